@@ -306,25 +306,11 @@ func runC04(c *mon.Ctx) {
 	}
 
 	// Sort: permutation ordered by (Compare, string).
-	nSort := c.Scale(40, 2400)
-	for i := 0; i < c.Share(nSort); i++ {
-		id := fmt.Sprintf("sort%d", i)
-		n := 2 + r.IntN(300)
-		l := make([]string, n)
-		for j := range l {
-			if j > 0 && r.IntN(2) == 0 {
-				l[j] = neighbour(l[r.IntN(j)])
-			} else {
-				l[j] = pool[r.IntN(len(pool))]
-			}
-		}
-		if !c.Want(id) {
-			continue
-		}
+	checkSort := func(id, family string, l []string) {
 		in := append([]string(nil), l...)
 		semver.Sort(l)
 		c.Eval(1)
-		c.Class("sort")
+		c.Class(family)
 		a, b := append([]string(nil), in...), append([]string(nil), l...)
 		sort.Strings(a)
 		sort.Strings(b)
@@ -350,5 +336,49 @@ func runC04(c *mon.Ctx) {
 				break
 			}
 		}
+	}
+	nSort := c.Scale(40, 2400)
+	for i := 0; i < c.Share(nSort); i++ {
+		id := fmt.Sprintf("sort%d", i)
+		n := 2 + r.IntN(300)
+		l := make([]string, n)
+		for j := range l {
+			if j > 0 && r.IntN(2) == 0 {
+				l[j] = neighbour(l[r.IntN(j)])
+			} else {
+				l[j] = pool[r.IntN(len(pool))]
+			}
+		}
+		if !c.Want(id) {
+			continue
+		}
+		checkSort(id, "sort", l)
+	}
+	// short lists that arrive almost in order: ascending by precedence already, with the members of a
+	// tie (v1, v1.0, v1.0.0+a, v1.0.0+b; invalid strings) in descending string order
+	nShort := c.Scale(20_000, 1_000_000)
+	for i := 0; i < c.Share(nShort); i++ {
+		id := fmt.Sprintf("sorts%d", i)
+		n := 2 + r.IntN(4)
+		l := make([]string, n)
+		for j := range l {
+			if j > 0 && r.IntN(3) > 0 {
+				l[j] = neighbour(l[r.IntN(j)])
+			} else {
+				l[j] = pool[r.IntN(len(pool))]
+			}
+		}
+		family := "sort:short"
+		if r.IntN(3) > 0 {
+			sort.SliceStable(l, func(x, y int) bool {
+				cc := refsemver.Compare(l[x], l[y])
+				return cc < 0 || cc == 0 && l[x] > l[y]
+			})
+			family = "sort:short:ascending-with-ties-reversed"
+		}
+		if !c.Want(id) {
+			continue
+		}
+		checkSort(id, family, l)
 	}
 }
